@@ -117,6 +117,9 @@ func apply(rt *rapid.T, kind string, version int64, h []hop) buildResult {
 		if o.Kind == "ins" {
 			v, _ := hex.DecodeString(o.Val)
 			_, err = mpt.Insert(util.Path(o.Path), mptkit.Val(v))
+		} else if i%3 == 1 {
+			// a removal may also be spelled as storing an empty (non-nil) value
+			_, err = mpt.Insert(util.Path(o.Path), mptkit.Val([]byte{}))
 		} else {
 			_, err = mpt.Delete(util.Path(o.Path))
 		}
